@@ -63,7 +63,8 @@ def with_preemption(name, args, files, hit, bcall):
     state = {"n": 0, "done": False, "berr": None}
 
     def tracer(frame, event, arg):
-        if frame.f_code.co_filename.endswith(files):
+        fn = frame.f_code.co_filename
+        if fn.endswith(files) or (files == ("/a5/",) and "/a5/" in fn):
             return local
         return None
 
@@ -129,6 +130,84 @@ def schedule_search(files, max_hits=600, pairs=None, time_budget=None):
                                                             "of": total},
                             "observed": norm(val)[:300], "sequential": norm(seq[k])[:300], "schedules_tried": tried}
     return {"confirmed": False, "note": "no failing schedule among %d preemption points (context bound 2)" % tried, "schedules_tried": tried}
+
+
+# ---- cold schedules: every schedule starts in a process that has imported a5 but never called it (lazy caches empty)
+def _in_child(fn, *args):
+    """Run fn(*args) in a forked child of this (cold) process and return its JSON-able result."""
+    r, w = os.pipe()
+    pid = os.fork()
+    if pid == 0:
+        try:
+            os.close(r)
+            try:
+                out = fn(*args)
+            except BaseException as e:      # noqa
+                out = {"child_error": repr(e)}
+            with os.fdopen(w, "w") as fh:
+                fh.write(json.dumps(out, default=repr))
+        finally:
+            os._exit(0)
+    os.close(w)
+    with os.fdopen(r) as fh:
+        data = fh.read()
+    os.waitpid(pid, 0)
+    return json.loads(data) if data else {"child_error": "no output"}
+
+
+def _cold_seq(call):
+    try:
+        return norm(("ok", run_call(*call)))
+    except Exception as e:
+        return norm(("raise", repr(e)))
+
+
+def _cold_sched(call, files, hit, bcall):
+    val, n, done = with_preemption(call[0], call[1], tuple(files), hit, bcall)
+    return {"val": norm(val), "n": n, "done": done}
+
+
+def _cold_task(t):
+    return _in_child(_cold_sched, *t)
+
+
+def schedule_search_cold(max_hits=200, time_budget=60.0, workers=8):
+    """Like schedule_search, but each schedule (and each sequential reference) runs in its own child forked from a
+    process in which no library function has been called yet; B ranges over A itself (same face, same triangles) and
+    two other calls; preemption points are line events in any library file."""
+    import time
+    import a5  # noqa  (import only: module-level initialisation, no API call in this process)
+    from concurrent.futures import ThreadPoolExecutor
+    t_end = time.time() + time_budget
+    pool = _in_child(api_pool)
+    if isinstance(pool, dict):
+        return {"confirmed": False, "error": "pool: %s" % pool}
+    pool = [tuple(c) for c in pool]
+    files = ("/a5/",)
+    tried = 0
+    cands = [c for c in pool if c[0] in ("lonlat_to_cell", "cell_to_lonlat", "cell_to_boundary")][:12]
+    with ThreadPoolExecutor(workers) as ex:
+        for k, call in enumerate(cands):
+            seq = _in_child(_cold_seq, call)
+            total = _in_child(_cold_sched, call, files, -1, None)["n"]
+            if not total:
+                continue
+            step = max(1, total // max_hits)
+            for b in (call, cands[(k + 1) % len(cands)]):
+                tasks = [(call, files, hit, b) for hit in range(1, total + 1, step)]
+                for lo in range(0, len(tasks), workers * 4):
+                    if time.time() > t_end:
+                        return {"confirmed": False, "note": "no failing cold schedule among %d preemption points (context bound 2, time budget reached)" % tried,
+                                "schedules_tried": tried}
+                    chunk = tasks[lo:lo + workers * 4]
+                    for t, o in zip(chunk, ex.map(_cold_task, chunk)):
+                        tried += 1
+                        if o.get("done") and o["val"] != seq:
+                            return {"confirmed": True, "cold_start": True,
+                                    "schedule": {"A": list(call), "B": list(t[3]), "files": "every library file", "line_event": t[2], "of": total,
+                                                 "start": "fresh process, a5 imported, no call made before"},
+                                    "observed": o["val"][:300], "sequential": seq[:300], "schedules_tried": tried}
+    return {"confirmed": False, "note": "no failing cold schedule among %d preemption points (context bound 2)" % tried, "schedules_tried": tried}
 
 
 # ------------------------------------------------------------------------------------------------ C17
@@ -233,6 +312,23 @@ def main():
     try:
         if kind == "schedule":
             out = schedule_search(req["files"], req.get("max_hits", 400), time_budget=req.get("time_budget"))
+        elif kind == "one_schedule":
+            sc = req["schedule"]
+            call, b = (sc["A"][0], sc["A"][1]), (sc["B"][0], sc["B"][1])
+            if req.get("cold"):
+                import a5  # noqa
+                seq = _in_child(_cold_seq, call)
+                o = _in_child(_cold_sched, call, ("/a5/",), sc["line_event"], b)
+                out = {"confirmed": bool(o.get("done") and o["val"] != seq), "observed": o.get("val", "")[:300], "sequential": seq[:300], "schedule": sc}
+            else:
+                try:
+                    seq = norm(("ok", run_call(*call)))
+                except Exception as e:
+                    seq = norm(("raise", repr(e)))
+                val, _, done = with_preemption(call[0], call[1], tuple(sc["files"]), sc["line_event"], b)
+                out = {"confirmed": bool(done and norm(val) != seq), "observed": norm(val)[:300], "sequential": seq[:300], "schedule": sc}
+        elif kind == "schedule_cold":
+            out = schedule_search_cold(req.get("max_hits", 200), req.get("time_budget", 60.0))
         elif kind == "sequence":
             out = sequence_search(req["repo"], req.get("orders", 3))
         elif kind == "threads":
